@@ -329,6 +329,29 @@ def work_words(task):
                     ry, rn = run(drv, "entry " + w, tok2), run(drv, "entry !" + w[1:], tok2)
                     split_check(ev, "?word/!word", (os.path.basename(f2)[:8], "entry", w, lo), rp, ry, rn, False, "entry " + w)
                 ev.label("inheriting-dies-file")
+        # location expressions in which an operation occurs once, twice, three times: ?OP_x / !OP_x look at a whole
+        # expression ("some operation has that opcode"), however many there are
+        oppairs = [w for w in pairs if w.startswith(("?OP_", "?DW_OP_"))]
+        if oppairs:
+            from ..dwgen import Attr, Die, Unit, Forest, TAG, AT, FORM
+            simple = [0x06, 0x12, 0x13, 0x14, 0x16, 0x17, 0x19, 0x1a, 0x1b, 0x1c, 0x1d, 0x1e, 0x1f, 0x20, 0x21, 0x22, 0x24, 0x25, 0x26, 0x27,
+                      0x29, 0x2a, 0x2b, 0x2c, 0x2d, 0x2e, 0x30, 0x31, 0x50, 0x51, 0x6f, 0x96, 0x9c, 0x9f]
+            dies = []
+            rr = random.Random(0x0904 + lo)
+            for code in simple:
+                for k in (1, 2, 3):
+                    dies.append(Die(TAG["variable"], [Attr(AT["location"], FORM["exprloc"], bytes([code] * k))]))
+                other = rr.choice(simple)
+                dies.append(Die(TAG["variable"], [Attr(AT["location"], FORM["exprloc"], bytes([code, other, code]))]))
+            f3 = Forest([Unit(Die(TAG["compile_unit"], [Attr(AT["name"], FORM["string"], b"ops.c")], dies), 4)])
+            with TempElf(build_file(f3)) as path3:
+                tok3 = "V%d" % drv.open(path3, False)
+                rp = run(drv, "entry @AT_location", tok3)
+                if ok(rp) and rp["res"]:
+                    for w in oppairs:
+                        ry, rn = run(drv, "entry @AT_location " + w, tok3), run(drv, "entry @AT_location !" + w[1:], tok3)
+                        split_check(ev, "?word/!word", ("ops", w, lo), rp, ry, rn, False, "entry @AT_location " + w)
+                    ev.label("repeated-operations-file")
         ev.sample({"file": fn, "word_pairs": len(pairs), "prefixes": list(base)}, cap=2)
     except DriverCrash as e:
         ev.violations.append({"property": PID, "reason": "driver crashed: " + e.report[-3000:], "query": e.request[:200], "signature": "C04:wcrash:" + e.request[:100]})
@@ -387,6 +410,7 @@ def main(tier, seed):
                                "when a diagnostic is printed, the equality is weakened to inclusion (the statement lets neither form hold on an erroring input)"],
                   health={"word pairs checked": ev.labels.get("?word/!word", 0) + ev.labels.get("?word/!word:with-diagnostic", 0) > 1000,
                           "dwarf prefixes checked": ev.labels.get("dwarf-prefix", 0) > 10,
+                          "?OP_x pairs on expressions with repeated operations": ev.labels.get("repeated-operations-file", 0) > 3,
                           "[E] and let checked": ev.labels.get("[E]", 0) > 100 and ev.labels.get("let", 0) > 100,
                           "continuations after inert contexts (also on stacks of exactly 4)": ev.labels.get("continuation", 0) > 1000 and ev.labels.get("continuation:stack-of-4", 0) > 100})
 
